@@ -1264,6 +1264,59 @@ func (fv *FV) probeClosure(e *Env, lit *ast.FuncLit, cl *Clause, ref Term) {
 	}
 }
 
+// probeClosureBody serves `closure N checked`: the literal is handed to a
+// callee that may invoke it any number of times later, so its body is executed
+// once with unconstrained arguments in a copy of the defining environment whose
+// heap has been forgotten (locals captured by value keep their value, boxed
+// ones are in the forgotten heap). Whatever obligations the body generates -
+// call-site `precall` clauses, safety - are obligations of the function.
+func (fv *FV) probeClosureBody(e *Env, lit *ast.FuncLit) {
+	sig, _ := fv.typeOf(lit).(*types.Signature)
+	if sig == nil {
+		return
+	}
+	fv.siteCount[fmt.Sprintf("closureprobe%d", funcLitOrd(fv.u.Decl, lit))]++
+	pe := e.clone()
+	fv.havocAll(pe)
+	for i := 0; i < sig.Params().Len(); i++ {
+		p := sig.Params().At(i)
+		fv.defineVar(pe, p, fv.freshValue(p.Type(), "clarg$"+p.Name()), false)
+	}
+	for i := 0; i < sig.Results().Len(); i++ {
+		if r := sig.Results().At(i); r.Name() != "" {
+			fv.defineVar(pe, r, fv.zeroValue(pe, r.Type()), true)
+		}
+	}
+	entry := pe.clone()
+	saved, savedFrames := fv.inlineRet, fv.frames
+	fv.frames = nil
+	ctx := &inlineCtx{sig: sig}
+	fv.inlineRet = ctx
+	fv.inlineDepth++
+	fv.block(pe, lit.Body.List)
+	fv.inlineDepth--
+	fv.inlineRet, fv.frames = saved, savedFrames
+	// `closure N ensures P`: P at every exit of the body (returns and the end of the body)
+	cls := fv.u.C.ClosureEnsures[funcLitOrd(fv.u.Decl, lit)]
+	if len(cls) == 0 {
+		return
+	}
+	var exits []*Env
+	for _, ex := range ctx.exits {
+		exits = append(exits, ex.env)
+	}
+	if !pe.dead {
+		exits = append(exits, pe)
+	}
+	for _, cl := range cls {
+		for k, ex := range exits {
+			p := fv.specTermO(ex, cl, &specCtx{old: entry, preAlloc: entry.alloc, lenient: true})
+			fv.obligeNamed(ex, "closure", fmt.Sprintf("%s@exit%d", cl.Label, k+1), lit,
+				fmt.Sprintf("at every exit of the function literal: %q", cl.Text), p)
+		}
+	}
+}
+
 // fnAcceptsTerm is the predicate "calling function value f with args returns a
 // nil error" (same symbol as ufb("fnAccepts", f, args...) in contracts).
 func (fv *FV) fnAcceptsTerm(e *Env, f Value, args []Value) Term {
